@@ -158,6 +158,30 @@ def gen_cases(rng, tier):
         cases.append(mk_case('c10-rand-%d' % i, conds, brks, envs, {'kind': 'random-deep', 'maxdepth': max([depth(e) for f in conds for e in f] or [0])}))
     # through the whole pipeline (history / timing leaves fed by real ticks), layout level
     cases += lsim_cases(rng, 'c10', 60 if tier == 'quick' else 1500, 3, modes=('consistent',), tag='c10-pipe')
+    # fork / switch key leaves: "currently active" whatever keeps the key active - a held physical key, a macro holding it, a pressed
+    # virtual key, a pending one-shot, the hold action of a tap-hold - and not active once release-key has let it go
+    MECH = {
+        'plain': ('lsft', ['d31', 't20'], True),
+        'macro-holds-it': ('(macro S-(400))', ['d31', 't5', 'u31', 't20'], True),
+        'macro-over': ('(macro S-(20))', ['d31', 't5', 'u31', 't80'], False),
+        'virtual-key': ('(on-press press-vkey vk)', ['d31', 't5', 'u31', 't20'], True),
+        'one-shot': ('(one-shot 500 lsft)', ['d31', 't5', 'u31', 't20'], True),
+        'tap-hold-hold': ('(tap-hold 0 30 z lsft)', ['d31', 't60'], True),
+        'tap-hold-tap': ('(tap-hold 0 30 z lsft)', ['d31', 't5', 'u31', 't20'], False),
+        'released-by-release-key': ('lsft', ['d31', 't10', 'd32', 't10'], False),
+        'none': ('lsft', ['t20'], False),
+        'multi': ('(multi lctl lsft)', ['d31', 't20'], True),
+    }
+    for i in range(40 if tier == 'quick' else 600):
+        mech = rng.choice(sorted(MECH))
+        act, pre, active = MECH[mech]
+        form = rng.choice(['fork', 'switch'])
+        trig = rng.choice(['lsft', 'lsft rsft', 'lalt lsft'])
+        decider = '(fork x y (%s))' % trig if form == 'fork' else '(switch ((or %s)) y break () x break)' % trig
+        cfg = '(defsrc a s d)\n(deflayer l0 %s %s (release-key lsft))\n(defvirtualkeys vk lsft)' % (decider, act)
+        h = ['t3'] + pre + ['d30', 't5', 'u30', 't30', 'u31', 'u32', 't600']
+        cases.append({'id': 'c10-active-%d' % i, 'cfg': cfg, 'hist': h, 'sub': 'ksim', 'active': active, 'mech': mech,
+                      'tags': {'kind': 'active-key-by-' + mech, 'form': form}})
     return cases
 
 
@@ -176,6 +200,14 @@ def nontrivial(case, it):
 
 def oracle(case, it):
     """spec oracle for swev cases: python evaluation of the written condition vs the implementation's answer"""
+    if 'active' in case and it and not it[0].startswith('PARSE-'):
+        evs = [e for l in it if l.startswith('@') for e in l.split(' ')[1:]]
+        x, y = evs.count('d45'), evs.count('d21')
+        want = 'y' if case['active'] else 'x'
+        if (x, y) != ((0, 1) if case['active'] else (1, 0)):
+            return 'trigger key %s (%s) when the deciding key was pressed: expected %s, saw x pressed %d times and y %d times' % (
+                'active' if case['active'] else 'not active', case['mech'], want, x, y)
+        return None
     if case.get('sub') != 'swev' or not it:
         return None
     h = case['hist']
@@ -270,7 +302,7 @@ SPEC = {
     'oracle': oracle,
     'rule': 'exhaustive: every forest of and/or/not over 3 key leaves up to the node bound (quick: all <=4 nodes + a sample of 5; thorough: all <=6) '
             'x all 8 truth assignments; random: expressions to depth 8 over every leaf kind incl. key-timing at the compression break points, '
-            'case lists with break/fallthrough; pipeline: random switch/fork configs at layout level; non-trivial = some case fires / some output',
+            'case lists with break/fallthrough; pipeline: random switch/fork configs at layout level; fork and switch key leaves with the key kept active by each mechanism (held, macro, virtual key, one-shot, tap-hold hold, multi) or let go (release-key, expired); non-trivial = some case fires / some output',
     'explanation': 'C10_eval_correct is proved for all forests and all environments; the correspondence ties compile (parser) and evaluate '
                    '(keyberon) to the model on opcodes and fired cases; the python oracle evaluates the written condition independently',
 }
